@@ -1,7 +1,7 @@
 (* C11/Properties.v -- the pinned statements of property C11 and their assumptions.
    Nothing else lives here: each statement is re-stated in full with [Check ... : ...]
    so that it cannot be quietly weakened in Proofs.v. *)
-From Sophia.C11 Require Import Model Proofs.
+From Sophia.C11 Require Import Model Proofs ModelErr ProofsErr.
 
 Section Pins.
 Variable T : Type.
@@ -138,6 +138,58 @@ Check (xd_retain_matching_effect : forall d sm pm om gm,
 Check (hreachable_nodup : forall pl init ops,
   NoDup (hfinal pl (fold_left (fun d q => fst (s_insert SSet d q)) init []) ops)).
 
+(* 8. error paths: a bulk mutation whose source fails, a store whose insert / remove fails at its (k+1)-th call *)
+Check (erun_embeds : forall sk pl ops d, erun sk pl (d, None) (map EH ops) = map EX (hrun sk pl d ops)).
+Check (ecase_embeds : forall sk pl init ops obs,
+  ecase_ok sk pl init (map EH ops) (map EX obs) = xcase_ok sk pl init ops obs).
+Check (e_insert_all_none : forall sk items d n,
+  e_insert_all sk (d, None) items n =
+  ((fst (x_insert_all sk d items n), None), EX (snd (x_insert_all sk d items n)))).
+Check (e_remove_all_none : forall sk items d n,
+  e_remove_all sk (d, None) items n =
+  ((fst (x_remove_all sk d items n), None), EX (snd (x_remove_all sk d items n)))).
+Check (failed_source_insert_all : forall sk pl d items k,
+  estep sk pl (d, None) (EInsAllF items k) =
+  let r := x_insert_all sk d (firstn (N.to_nat k) items) 0 in
+  ((fst r, None), match snd r with XO (OCount _) => ESrcErr | x => EX x end)).
+Check (failed_source_remove_all : forall sk pl d items k,
+  estep sk pl (d, None) (ERemAllF items k) =
+  let r := x_remove_all sk d (firstn (N.to_nat k) items) 0 in
+  ((fst r, None), match snd r with XO (OCount _) => ESrcErr | x => EX x end)).
+Check (insert_all_keeps : forall sk items (st : estate) n x,
+  In x (fst st) -> In x (fst (fst (e_insert_all sk st items n)))).
+Check (insert_all_only_adds : forall sk items (st : estate) n x,
+  In x (fst (fst (e_insert_all sk st items n))) ->
+  In x (fst st) \/ exists gs, In (gs, qt x) items /\ lands gs = Some (qg x)).
+Check (failed_insert_all_keeps : forall sk pl (st : estate) items k x,
+  In x (fst st) -> In x (fst (fst (estep sk pl st (EInsAllF items k))))).
+Check (failed_insert_all_only_adds : forall sk pl (st : estate) items k x,
+  In x (fst (fst (estep sk pl st (EInsAllF items k)))) ->
+  In x (fst st) \/ exists gs, In (gs, qt x) items /\ lands gs = Some (qg x)).
+Check (remove_all_only_removes : forall sk items (st : estate) n x,
+  (In x (fst (fst (e_remove_all sk st items n))) -> In x (fst st))
+  /\ (In x (fst st) -> (forall gs, In (gs, qt x) items -> lands gs <> Some (qg x)) ->
+      In x (fst (fst (e_remove_all sk st items n))))).
+Check (failed_remove_all_only_removes : forall sk pl (st : estate) items k x,
+  (In x (fst (fst (estep sk pl st (ERemAllF items k)))) -> In x (fst st))
+  /\ (In x (fst st) -> (forall gs, In (gs, qt x) items -> lands gs <> Some (qg x)) ->
+      In x (fst (fst (estep sk pl st (ERemAllF items k)))))).
+Check (budget_stops_insert_all : forall sk s items k d n,
+  Forall (fun it => lands (fst it) <> None) items -> (k < length items)%nat ->
+  e_insert_all sk (d, Some (N.of_nat k, s)) items n =
+  ((fst (x_insert_all sk d (firstn k items) n), if s then Some (0, true) else None), ESinkErr)).
+Check (partial_removal_effect : forall d k s x removed (st' : estate),
+  e_partial SSet (d, Some (k, s)) x removed = (st', ESinkErr) ->
+  exists v, victims d x = Some v
+  /\ (forall q, In q (fst st') <-> In q d /\ ~ In q removed)
+  /\ (forall q, In q removed -> In q v) /\ NoDup removed
+  /\ N.of_nat (length removed) = k /\ (k < N.of_nat (length v))%N
+  /\ snd st' = (if s then Some (0, true) else None)
+  /\ (NoDup d -> NoDup (fst st'))).
+Check (view_victims_in_graph : forall d g sm pm om v,
+  (victims d (XRemMatching g sm pm om) = Some v \/ victims d (XRetMatching g sm pm om) = Some v) ->
+  forall q, In q v -> qg q = g /\ In q d).
+
 Print Assumptions union_content.
 Print Assumptions union_query_is_filter.
 Print Assumptions punion_content.
@@ -176,3 +228,18 @@ Print Assumptions bagone_remove_view.
 Print Assumptions xd_remove_matching_effect.
 Print Assumptions xd_retain_matching_effect.
 Print Assumptions hreachable_nodup.
+Print Assumptions erun_embeds.
+Print Assumptions ecase_embeds.
+Print Assumptions e_insert_all_none.
+Print Assumptions e_remove_all_none.
+Print Assumptions failed_source_insert_all.
+Print Assumptions failed_source_remove_all.
+Print Assumptions insert_all_keeps.
+Print Assumptions insert_all_only_adds.
+Print Assumptions failed_insert_all_keeps.
+Print Assumptions failed_insert_all_only_adds.
+Print Assumptions remove_all_only_removes.
+Print Assumptions failed_remove_all_only_removes.
+Print Assumptions budget_stops_insert_all.
+Print Assumptions partial_removal_effect.
+Print Assumptions view_victims_in_graph.
